@@ -297,7 +297,7 @@ def float_to_q(x, max_den=10 ** 6, rel=1e-9):
 
 def close(expected_fr, x, rel=1e-9, abs_zero=1e-12):
     """is the f64 x within tolerance of the exact expected value?"""
-    if x is None or isinstance(x, str):
+    if x is None or isinstance(x, str) or x != x or x in (float("inf"), float("-inf")):
         return False
     fx = Fraction(x)
     if expected_fr == 0:
